@@ -24,11 +24,11 @@ SHARD_TIMEOUT = {"quick": 600, "thorough": 3000}
 META = {
     "level": "exploration",
     "technique": "runtime monitoring on real TLS over loopback: throw-away CAs and leaf certificates minted with openssl, TLS servers that record the first TCP bytes, whether the handshake completed and whether any application data was ever decrypted; a spy on SSLContext.wrap_socket records verify_mode/check_hostname/server_hostname of the context actually used; outcome of connect() compared with a reference trust/name predicate",
-    "claim": "Over the option matrix cert_reqs {unset, CERT_NONE, CERT_REQUIRED} x check_hostname {unset, False, True} x trust source {none, ca_certs=A, ca_certs=B, ca_cert_path=A, WEBSOCKET_CLIENT_CA_BUNDLE file/dir A, custom context(A), SSL_CERT_FILE=A, ca_certs=B with bundle file A, ca_cert_path=B with bundle dir A} x server_hostname {unset, matching, other} x server certificate {signed by A / by B / self-signed} x {SAN localhost / SAN other.test} x {direct, through an HTTP CONNECT proxy} (pairwise-covering random sample in quick, full product in thorough) connect() succeeded exactly when the checks in force accept the certificate; every rejected server received zero application bytes; wss streams started with a TLS record (0x16) - after the CONNECT exchange when tunnelled -; ws streams started with 'GET ' and were never wrapped; the context used carried the expected verify_mode / check_hostname / server_hostname.",
+    "claim": "Over the option matrix cert_reqs {unset, CERT_NONE, CERT_REQUIRED} x check_hostname {unset, False, True} x trust source {none, ca_certs=A, ca_certs=B, ca_cert_path=A, WEBSOCKET_CLIENT_CA_BUNDLE file/dir A, custom context(A), SSL_CERT_FILE=A, ca_certs=B with bundle file A, ca_cert_path=B with bundle dir A} x server_hostname {unset, matching, other, IP literal} x URL host {localhost, 127.0.0.1} x server certificate {signed by A / by B / self-signed} x {SAN localhost+127.0.0.1 / SAN other.test / SAN localhost only} x {direct, through an HTTP CONNECT proxy} (pairwise-covering random sample in quick, full product in thorough) connect() succeeded exactly when the checks in force accept the certificate; every rejected server received zero application bytes; wss streams started with a TLS record (0x16) - after the CONNECT exchange when tunnelled -; ws streams started with 'GET ' and were never wrapped; the context used carried the expected verify_mode / check_hostname / server_hostname.",
     "trusted": "OpenSSL/ssl as the verification engine and oracle of what a certificate matches; certificates minted by the openssl CLI; loopback networking",
     "rule": "case = (sslopt combination, env, server certificate, route); distinct by that tuple; non-trivial when TLS was attempted (every wss case)",
     "exhaustive": {"quick": False, "thorough": True},
-    "exhaustive_space": {"thorough": "3 x 3 x 10 x 3 x 6 x 2 = 3240 combinations", "quick": "random sample of 400 combinations + 40 fixed essential ones"},
+    "exhaustive_space": {"thorough": "3 x 3 x 10 x 4 x 7 x 2 x 2 = 10080 combinations (URL host name or IP literal)", "quick": "random sample of 400 combinations + 40 fixed essential ones"},
     "bounds": "certfile/ciphers/ecdh_curve options not driven; SOCKS proxies absent; TLS backend = the installed OpenSSL",
     "required_counters": ["tls_cases", "accept_expected", "reject_expected", "server_records_checked"],
     "assumptions": ["loopback TCP and the openssl CLI are available in the sandbox"],
@@ -58,7 +58,9 @@ def mint(d):
         sh(OPENSSL, "rehash", cadir)
         P[f"cadir{ca}"] = cadir
     for issuer in ("A", "B", "self"):
-        for san_name, san in (("local", "DNS:localhost,IP:127.0.0.1"), ("other", "DNS:other.test")):
+        for san_name, san in (("local", "DNS:localhost,IP:127.0.0.1"), ("other", "DNS:other.test"), ("dnsonly", "DNS:localhost")):
+            if san_name == "dnsonly" and issuer != "A":
+                continue
             name = f"leaf-{issuer}-{san_name}"
             ext = os.path.join(d, name + ".ext")
             with open(ext, "w") as f:
@@ -235,15 +237,17 @@ class Proxy(threading.Thread):
 CERT_REQS = ["unset", "none", "required"]
 CHECK_HOST = ["unset", False, True]
 TRUST = ["none", "ca_certs=A", "ca_certs=B", "ca_cert_path=A", "env-file=A", "env-dir=A", "context(A)", "SSL_CERT_FILE=A", "ca_certs=B+env-file=A", "ca_cert_path=B+env-dir=A"]
-SNI = ["unset", "localhost", "other.test"]
-CERTS = ["leaf-A-local", "leaf-A-other", "leaf-B-local", "leaf-B-other", "leaf-self-local", "leaf-self-other"]
+SNI = ["unset", "localhost", "other.test", "127.0.0.1"]
+CERTS = ["leaf-A-local", "leaf-A-other", "leaf-A-dnsonly", "leaf-B-local", "leaf-B-other", "leaf-self-local", "leaf-self-other"]
 ROUTE = ["direct", "proxy"]
+URLHOST = ["localhost", "127.0.0.1"]
+SANS = {"local": {"localhost", "127.0.0.1"}, "other": {"other.test"}, "dnsonly": {"localhost"}}
 
 
-def reference(cert_reqs, check_host, trust, sni, cert):
+def reference(cert_reqs, check_host, trust, sni, cert, urlhost="localhost"):
     """-> (expect_accept, chain_in_force, name_in_force, note)"""
     issuer = cert.split("-")[1]
-    san = "localhost" if cert.endswith("local") else "other.test"
+    sans = SANS[cert.split("-")[2]]
     if trust == "context(A)":
         chain, name = True, True
         trusted = {"A"}
@@ -257,11 +261,11 @@ def reference(cert_reqs, check_host, trust, sni, cert):
             name = check_host is not False
         trusted = {"none": set(), "ca_certs=A": {"A"}, "ca_certs=B": {"B"}, "ca_cert_path=A": {"A"}, "env-file=A": {"A"}, "env-dir=A": {"A"},
                    "SSL_CERT_FILE=A": {"A"}, "ca_certs=B+env-file=A": {"B"}, "ca_cert_path=B+env-dir=A": {"B"}}[trust]
-    eff_name = "localhost" if sni == "unset" else sni
+    eff_name = urlhost if sni == "unset" else sni
     ok = True
     if chain and issuer not in trusted:
         ok = False
-    if name and san != eff_name and not (eff_name == "localhost" and san == "localhost"):
+    if name and eff_name not in sans:
         ok = False
     return ok, chain, name, ""
 
@@ -290,15 +294,17 @@ def run(res, tier, seed, shard, nshards):
     for s in list(servers.values()) + [plain, proxy]:
         s.start()
     try:
-        combos = list(itertools.product(CERT_REQS, CHECK_HOST, TRUST, SNI, CERTS, ROUTE))
+        combos = list(itertools.product(CERT_REQS, CHECK_HOST, TRUST, SNI, CERTS, ROUTE, URLHOST))
         if tier == "quick":
             essential = []
             for cert in CERTS:
                 for route in ROUTE:
-                    essential.append(("unset", "unset", "none", "unset", cert, route))
-                    essential.append(("unset", "unset", "ca_certs=A", "unset", cert, route))
-                    essential.append(("none", "unset", "none", "unset", cert, route))
-                    essential.append(("unset", "unset", "ca_certs=B+env-file=A", "unset", cert, route))
+                    for uh in URLHOST:
+                        essential.append(("unset", "unset", "none", "unset", cert, route, uh))
+                        essential.append(("unset", "unset", "ca_certs=A", "unset", cert, route, uh))
+                        essential.append(("none", "unset", "none", "unset", cert, route, uh))
+                    essential.append(("unset", "unset", "ca_certs=B+env-file=A", "unset", cert, route, "localhost"))
+                    essential.append(("unset", True, "ca_certs=A", "127.0.0.1", cert, route, "localhost"))
             r2 = random.Random(seed)
             sample = r2.sample(combos, 400)
             combos = essential + sample
@@ -319,7 +325,7 @@ def run(res, tier, seed, shard, nshards):
         H.scrub_env()
 
 
-def tls_case(res, W, P, servers, proxy, cert_reqs, check_host, trust, sni, cert, route):
+def tls_case(res, W, P, servers, proxy, cert_reqs, check_host, trust, sni, cert, route, urlhost="localhost"):
     H.scrub_env()
     os.environ.pop("SSL_CERT_FILE", None)
     sslopt = {}
@@ -364,7 +370,7 @@ def tls_case(res, W, P, servers, proxy, cert_reqs, check_host, trust, sni, cert,
     exc = None
     w = None
     try:
-        w = W.create_connection(f"wss://localhost:{srv.port}/c11", timeout=5, sslopt=sslopt, **kw)
+        w = W.create_connection(f"wss://{urlhost}:{srv.port}/c11", timeout=5, sslopt=sslopt, **kw)
     except BaseException as e:  # noqa
         if isinstance(e, KeyboardInterrupt):
             raise
@@ -389,8 +395,8 @@ def tls_case(res, W, P, servers, proxy, cert_reqs, check_host, trust, sni, cert,
             prec = proxy.records.get(timeout=wait)
         except queue.Empty:
             prec = None
-    exp, chain, name, note = reference(cert_reqs, check_host, trust, sni, cert)
-    case = {"cert_reqs": cert_reqs, "check_hostname": check_host, "trust": trust, "server_hostname": sni, "server_cert": cert, "route": route}
+    exp, chain, name, note = reference(cert_reqs, check_host, trust, sni, cert, urlhost)
+    case = {"cert_reqs": cert_reqs, "check_hostname": check_host, "trust": trust, "server_hostname": sni, "server_cert": cert, "route": route, "url_host": urlhost}
     res.case(tuple(case.values()), nontrivial=True)
     res.count("tls_cases")
     res.count("accept_expected" if exp else "reject_expected")
@@ -425,7 +431,7 @@ def tls_case(res, W, P, servers, proxy, cert_reqs, check_host, trust, sni, cert,
     elif note == "":
         res.count("server_saw_no_connection")
     if route == "proxy" and prec is not None:
-        if not prec["connect"].startswith(b"CONNECT localhost:%d " % srv.port):
+        if not prec["connect"].startswith(b"CONNECT %s:%d " % (urlhost.encode(), srv.port)):
             bad("connect-line", f"{prec['connect'][:60]!r}")
     # the context actually used
     wl = [r for r in shim.wrap_log if r["in_repo"]]
@@ -436,7 +442,7 @@ def tls_case(res, W, P, servers, proxy, cert_reqs, check_host, trust, sni, cert,
         else:
             r = wl[0]
             exp_mode = int(ssl.CERT_NONE) if not chain else int(ssl.CERT_REQUIRED)
-            exp_name = "localhost" if sni == "unset" else sni
+            exp_name = urlhost if sni == "unset" else sni
             if r["verify_mode"] != exp_mode or r["check_hostname"] != name or r["server_hostname"] != exp_name:
                 bad("context-settings", f"context used: {r}; expected verify_mode={exp_mode} check_hostname={name} server_hostname={exp_name}")
             else:
